@@ -26,6 +26,10 @@ type Gen struct {
 	// arguments of non-int numeric parameters, where the meaning of literal
 	// arithmetic is not settled by the definition).
 	NoIntLit bool
+	// NoElvis keeps `a ?: b` out (its condition is evaluated twice by the
+	// library: recorded under C01/C10, and an obstacle where one sub-term has
+	// to be marked or counted once).
+	NoElvis bool
 }
 
 func NewGen(r *runner.Rng, allowAny bool) *Gen {
@@ -542,6 +546,11 @@ func (g *Gen) genBool(n int) *Term {
 			op := r.Pick([]string{"and", "or", "&&", "||"})
 			return must(Binary(g.Sc, op, g.genBool((n-1)/2), g.genBool((n-1)/2)))
 		case 3:
+			if r.Chance(1, 4) && !g.NoElvis {
+				// a ?: b (one term in the condition and the first-arm slot)
+				a := g.genBool((n - 1) / 2)
+				return must(Cond(g.Sc, a, a, g.genBool((n-1)/2)))
+			}
 			return must(Unary(g.Sc, r.Pick([]string{"not", "!"}), g.genBool(n-1)))
 		case 4, 5:
 			a := g.Of(KindType(NumKinds[r.Intn(len(NumKinds))]), (n-1)/2)
